@@ -91,8 +91,8 @@ def floors(tier):
             "synthetic-score": 300, "synthetic-score:with-timeout": 80, "synthetic-score:with-aborted-none": 50,
             "synthetic-score:zero-divisor": 10, "synthetic-score:killed-then-timed-out": 10,
             "real-run": 20 * k, "real-run:minimization-on": 8 * k, "real-run:minimization-off": 6 * k,
-            "real-run:first-order": 4 * k, "real-run:capped-reordered": 3 * k, "real-run:hom": 4 * k,
-            "real-run:SIMPLE": 2 * k,
+            "real-run:first-order": 4 * k, "real-run:capped-reordered": 3 if k == 1 else 12, "real-run:hom": 4 * k,
+            "real-run:SIMPLE": 2,
             "real-score": 16 * k, "kill-preserved:real": 200 * k, "reexec:test": 80 * k, "reexec:assertion": 150 * k,
         },
         "hom_strategies_min": 2,
@@ -366,34 +366,30 @@ def eval_mutation_analysis(ctx, ev, case, kind):
 
 
 def recompute_score(ev_ma):
+    """Two readings of 'killed' (the statement does not define it): 'any' = a violated assertion or any raised exception (what
+    the code does), 'strict' = a violated assertion or an exception at a statement without a matching exception assertion."""
     nm, timed_out = columns(ev_ma)
-    killed = []
-    only_expected = 0
+    killed_any, killed_strict = [], []
     for j in range(nm):
-        k = False
-        viol = False
-        unexpected = False
+        k_any = k_strict = False
         for ti, row in enumerate(ev_ma["results"]):
             r = row[j]
             if r is None:
                 continue
             if r["failed"] or r["error"]:
-                viol = True
+                k_any = k_strict = True
             for p, name in r["exc"].items():
-                st = ev_ma["tests"][ti][int(p)]
-                exp = [a.get("exception") for a in st["assertions"] if a["cls"] == "ExceptionAssertion"]
-                if name not in exp:
-                    unexpected = True
-            if r["failed"] or r["error"] or r["exc"]:
-                k = True
-        k = k and not timed_out[j]
-        killed.append(k)
-        if k and not viol and not unexpected:
-            only_expected += 1
+                k_any = True
+                st = ev_ma["tests"][ti][int(p)] if int(p) < len(ev_ma["tests"][ti]) else None
+                if st is None or not st["only_exception"]:
+                    k_strict = True
+        killed_any.append(k_any and not timed_out[j])
+        killed_strict.append(k_strict and not timed_out[j])
     n_to = sum(timed_out)
     div = nm - n_to
-    score = 1.0 if div == 0 else sum(killed) / div
-    return {"checked": nm, "timeouts": n_to, "killed": sum(killed), "score": score, "only_expected_exception": only_expected,
+    return {"checked": nm, "timeouts": n_to, "killed": sum(killed_any), "killed_strict": sum(killed_strict),
+            "score": 1.0 if div == 0 else sum(killed_any) / div, "score_strict": 1.0 if div == 0 else sum(killed_strict) / div,
+            "only_expected_exception": sum(killed_any) - sum(killed_strict),
             "killed_then_timed_out": sum(1 for j in range(nm) if timed_out[j] and any(
                 row[j] is not None and not row[j]["timeout"] and (row[j]["failed"] or row[j]["error"] or row[j]["exc"]) for row in ev_ma["results"]))}
 
@@ -419,7 +415,7 @@ def eval_score(ctx, reported, ref, case, kind, extra=None):
     if not isinstance(reported, (int, float)) or reported != reported or not (0.0 <= reported <= 1.0):
         ctx.witness("score:out-of-range", f"[{kind}] mutation score {reported!r} is not in [0, 1]", c)
         return
-    if math.isclose(reported, ref["score"], rel_tol=1e-9, abs_tol=1e-12):
+    if math.isclose(reported, ref["score"], rel_tol=1e-9, abs_tol=1e-12) or math.isclose(reported, ref["score_strict"], rel_tol=1e-9, abs_tol=1e-12):
         return
     n, t, k = ref["checked"], ref["timeouts"], ref["killed"]
     unchecked = c.get("counts", {}).get("unchecked", 0)
@@ -606,9 +602,9 @@ def run_real(ctx, run, proj, idx, env_extra=None):
             ctx.witness("score:NumberOfCheckedMutants-differs", f"tracked {tr.get('NumberOfCheckedMutants')} executed {n_checked}", case_s)
         if tr.get("NumberOfTimedOutMutants") != ref["timeouts"]:
             ctx.witness("score:NumberOfTimedOutMutants-differs", f"tracked {tr.get('NumberOfTimedOutMutants')} raw results {ref['timeouts']}", case_s)
-        if tr.get("NumberOfKilledMutants") != ref["killed"]:
-            ctx.witness("score:NumberOfKilledMutants-differs", f"tracked {tr.get('NumberOfKilledMutants')} raw results {ref['killed']}", case_s)
-        if ref["only_expected_exception"]:
+        if tr.get("NumberOfKilledMutants") not in (ref["killed"], ref["killed_strict"]):
+            ctx.witness("score:NumberOfKilledMutants-differs", f"tracked {tr.get('NumberOfKilledMutants')} raw results {ref['killed']} (strict reading {ref['killed_strict']})", case_s)
+        if ref["only_expected_exception"] and tr.get("NumberOfKilledMutants") == ref["killed"]:
             ctx.anomaly("score:mutant-counted-killed-only-because-an-expected-exception-was-raised", ref["only_expected_exception"])
             ctx.count("mutants_killed_only_by_expected_exception", ref["only_expected_exception"])
         ctx.count("mutants_checked", ref["checked"])
